@@ -84,6 +84,66 @@ def run(cfg: dict) -> dict:
     return out
 
 
+def run_cancelled_waiter(cfg: dict) -> dict:
+    """Writer A blocked in the leaf (holding the transport send lock), writer B cancelled while it waits for that lock, then the peer
+    reads again and writer C sends: the TLS stream must stay intact - the peer decrypts A, then B entirely or not at all, then C."""
+    world = World(Ctx(), horizon=20000)
+    version, role = cfg["version"], cfg["role"]
+    relay = tlsrig.make_peer_and_relay(version, role, script=[])
+    world.env = relay.env
+    out: dict[str, Any] = {}
+    A, B, C = tlsrig.pattern("lib", 0, cfg["a_bytes"]), b"<<B:" + bytes(range(65, 65 + 20)) + b">>", b"<<C-after-the-cancelled-send>>"
+
+    async def main(loop: Any) -> None:
+        leaf = GatedLeaf(AsyncIOBackend())
+        relay.link = tlsrig.AsyncLink(relay, leaf)
+        tls = await AsyncTLSStreamTransport.wrap(leaf, tlsrig.lib_context(version, role), server_side=(role == "server"),
+                                                 server_hostname=tlsrig.HOSTNAME if role == "client" else None)
+        leaf.gate = asyncio.Event()
+        ta = loop.create_task(tls.send_all(A))
+        for _ in range(2 + cfg["gap"]):
+            await asyncio.sleep(0)
+        tb = loop.create_task(tls.send_all(B))
+        for _ in range(1 + cfg["cdelay"]):
+            await asyncio.sleep(0)
+        tb.cancel()
+        await asyncio.wait([tb])
+        out["b"] = "cancelled" if tb.cancelled() else ("raised:" + type(tb.exception()).__name__ if tb.exception() else "returned")
+        leaf.gate.set()
+        done, pending = await asyncio.wait([ta], timeout=100.0)
+        out["a"] = "pending" if pending else ("raised:" + type(ta.exception()).__name__ if ta.exception() else "returned")
+        try:
+            await tls.send_all(C)
+            out["c"] = "returned"
+        except Exception as exc:  # noqa: BLE001
+            out["c"] = "raised:" + type(exc).__name__
+        for _ in range(5):
+            await asyncio.sleep(0)
+        relay.drain()
+
+    status, value, _loop = vloop.run(world, main)
+    tlsrig.gc_tick()
+    out["status"] = status
+    out["value"] = repr(value)[:160] if status != "ok" else None
+    got = bytes(relay.peer.received)
+    out["peer_events"] = [e for e in relay.peer.events if e[0] != "data"][-3:]
+    out["peer_ok"] = got in (A + C, A + B + C)
+    out["peer_len"] = len(got)
+    out["with_b"] = got == A + B + C
+    out["peer_dead"] = relay.peer.dead
+    return out
+
+
+def oracle_cancelled_waiter(obs: dict) -> str | None:
+    if obs["status"] != "ok":
+        return "cancelled-waiter-" + obs["status"]
+    if obs["a"] != "returned" or obs["c"] != "returned":
+        return "send-failed-after-a-cancelled-send"
+    if obs["peer_dead"] or not obs["peer_ok"]:
+        return "tls-stream-corrupted-after-a-send-cancelled-while-waiting-for-its-turn"
+    return None
+
+
 def oracle(obs: dict) -> str | None:
     if obs["status"] != "ok":
         return "duplex-" + obs["status"]
@@ -116,11 +176,27 @@ def run_job(job: dict) -> JobResult:
                     key = f"async/duplex/{'two-writers/' if 'x' in order else ''}{bad}"
                     if bad and not any(v.key == key for v in res.violations):
                         res.violations.append(Violation(key, f"{cfg}: {obs}", {"kind": "duplex", "cfg": cfg, "choices": []}))
+    for a_bytes in (40000, 17):
+        for gap in (0, 1, 3):
+            for cdelay in (0, 1, 2, 4):
+                cfg = {"version": job["version"], "role": job["role"], "a_bytes": a_bytes, "gap": gap, "cdelay": cdelay}
+                obs = run_cancelled_waiter(cfg)
+                res.evaluations += 1
+                bad = oracle_cancelled_waiter(obs)
+                res.outcome(("cancelled-waiter-ok:" + ("B-delivered" if obs.get("with_b") else "B-not-sent")) if bad is None else "VIOLATION:" + bad)
+                res.nontrivial.add(digest(("cancelled-waiter", a_bytes, gap, cdelay, obs.get("b"), obs.get("with_b"), bad)))
+                key = f"async/cancelled-waiter/{bad}"
+                if bad and not any(v.key == key for v in res.violations):
+                    res.violations.append(Violation(key, f"{cfg}: {obs}", {"kind": "duplex", "sub": "cancelled-waiter", "cfg": cfg, "choices": []}))
     res.samples.append({"kind": "duplex-under-backpressure", "version": job["version"], "role": job["role"]})
     return res
 
 
 def replay(doc: dict) -> tuple[bool, str]:
+    if doc["replay"].get("sub") == "cancelled-waiter":
+        obs = run_cancelled_waiter(doc["replay"]["cfg"])
+        bad = oracle_cancelled_waiter(obs)
+        return bad is not None, f"cfg={doc['replay']['cfg']}\nobserved={obs}\noracle: {bad}"
     obs = run(doc["replay"]["cfg"])
     bad = oracle(obs)
     return bad is not None, f"cfg={doc['replay']['cfg']}\nobserved={obs}\noracle: {bad}"
